@@ -423,6 +423,30 @@ def generate(repo, outdir_lean, outdir_json, write_if_changed):
                                 f"    (constructObj {mod}.classes 4 {cid} hist s').toOption.bind (Aoe.Props.Hooks.effOfVal k f effSlots_{mod}) = some o :=\n"
                                 f"  Aoe.Props.Hooks.effect_roundtrip k f effSlots_{mod} (by decide) {mod}.classes 3 {cid} hist {mod}.c{cid} rfl\n"
                                 f"    allPlainSkip_{mod}_Effect (by decide) (by rw [hh]; exact tableSafeAt_{mod}_Effect) o ho s s' h\n")
+                # ... and at full nesting, after the whole reconstruct: effect j of trigger i of the trigger manager
+                tmn = next((n for n in g.meta if n.startswith("TriggerManager")), None)
+                tr = g.meta.get("Trigger")
+                if tmn and tr:
+                    tm = g.meta[tmn]
+                    jt = next((i for i, l in enumerate(tm["links"]) if l["name"] == "triggers"), None)
+                    je = next((i for i, l in enumerate(tr["links"]) if l["name"] == "effects"), None)
+                    mi = mids.index(tm["id"]) if tm["id"] in mids else None
+                    if None not in (jt, je, mi):
+                        H = "Aoe.Props.Hooks"
+                        laws_src.append(f"/-- **an armour/attack effect survives the whole save** (version {v}): after ALL managers were committed, constructing the\n"
+                                        f"{tmn} again returns an object tree in which effect `j` of trigger `i` decodes to the effect that was handed over -/\n"
+                                        f"theorem effect_saved_{mod} (k : Nat) (f : Aoe.AA.Family) (objs : List Val) (s s' : Sections)\n"
+                                        f"    (h : commitAll {mod}.classes {mod}.managers objs s = .ok s') (mvals tvals : List Val) (i j : Nat) (o : {H}.EffectObj)\n"
+                                        f"    (hobj : objs[{mi}]? = some (.strct mvals)) (hwf : Aoe.Props.CommitHolds.WF {mod}.classes 4 {tm['id']} [] (.strct mvals))\n"
+                                        f"    (hti : {H}.childAt (.strct mvals) {jt} i = some (.strct tvals))\n"
+                                        f"    (hej : {H}.childAt (.strct tvals) {je} j = some ({H}.effToVal k effSlots_{mod} o))\n"
+                                        f"    (ho : {H}.EffDom k f effSlots_{mod} {mod}.c{cid}.links o) :\n"
+                                        f"    ∃ r t' e', constructObj {mod}.classes 4 {tm['id']} [] s' = .ok r ∧ {H}.childAt r {jt} i = some t' ∧\n"
+                                        f"      {H}.childAt t' {je} j = some e' ∧ {H}.effOfVal k f effSlots_{mod} e' = some o := by\n"
+                                        f"  obtain ⟨t', e', h1, h2, h3⟩ := {H}.effect_in_manager k f effSlots_{mod} (by decide) {mod}.classes 1 {tm['id']}\n"
+                                        f"    {mod}.c{tm['id']} {mod}.c{tr['id']} {mod}.c{cid} {jt} {je} _ _ {tr['id']} {cid} _ _ _ _ _ _ _ _ _ _ _ _ rfl rfl rfl rfl rfl\n"
+                                        f"    allPlainSkip_{mod}_Effect (by decide) mvals tvals i j o hti hej ho\n"
+                                        f"  exact ⟨_, t', e', construct_after_commitAll_{mod}_{tmn} objs s s' _ h hobj hwf, h1, h2, h3⟩\n")
         # the map: width and height are links of their own next to the terrain list (whose refresh writes isqrt(len) first)
         for mname, mm in g.meta.items():
             pos = {l["name"]: i for i, l in enumerate(mm["links"])}
